@@ -110,10 +110,14 @@ class C11(Check):
         nontriv = False
         for op, ans in zip(run.ops, run.answers):
             k = op.split('|')[0]
-            self._bump(k + ':' + ans.split(':')[0].split('=')[0])
+            if k in E.EditRunner.LISTING_OPS and k != 'WX':
+                kind = ans.split(':')[0] if ans.split(':')[0] in ('err', 'route') else (ans if ans in ('none', 'noroute', '~') else 'text')
+                self._bump(k + ':' + kind)
+            else:
+                self._bump(k + ':' + ans.split(':')[0].split('=')[0])
             if ans.startswith('err:'):
                 self._bump(k + '-' + ans)
-            if k in ('X', 'XN', 'XH') and ans == 'ok':
+            if k in ('X', 'XN', 'XH', 'WX') and ans == 'ok':
                 removed = True
             if removed and (ans.startswith('hit:') or ans.startswith('ran:')):
                 nontriv = True
@@ -121,6 +125,10 @@ class C11(Check):
                 self._bump('V:hooks-fired')
             if k == 'V' and ans.startswith('status:'):
                 self._bump('V:other-status')
+            if k == 'LI':
+                self._bump('LI:entries', 0 if ans == '~' else ans.count(';') + 1)
+            if k == 'LK':
+                self._bump('LK-form:' + op.split('|')[1][:1])
         self._bump('ops', len(run.ops))
         self._bump('histories')
         sample = dict(ops=ops, nontrivial=nontriv)
@@ -153,7 +161,10 @@ class C11(Check):
     SMALL_PROBES = ([['FS', ['a', 'ab', 'abc', 'a/q', 'ab/q', 'a/b/d', 'a/b', 'a/q/d'], ['GET', 'ANY']]] +
                     [['V', 'GET', p] for p in ['/a', '/ab', '/abc', '/a/q', '/ab/q', '/abx', '/a/', '/a/b/d', '/a/b']]
                     + [['P', 'ab', ['POST', 'ANY']], ['P', 'a/b/d', ['GET']], ['L'], ['I', 'n1'], ['I', 'n2'], ['IR', '/a'],
-                       ['IR', '/ab'], ['IR', '/a/<z>'], ['K', '/a'], ['K', '/ab'], ['K', '/a/b']])
+                       ['IR', '/ab'], ['IR', '/a/<z>'], ['K', '/a'], ['K', '/ab'], ['K', '/a/b']]
+                    + [['LI', '', True], ['LI', 'a', False], ['LI', 'ab', True], ['LR'], ['LK', ['s', ['/ab']]],
+                       ['LK', ['d', [['pattern', 'a/\r']]]], ['LK', ['k', '/a', None]], ['LK', ['k', None, 'abc']],
+                       ['LE', '/a/<q:int>'], ['LS']])
 
     def _dump(self, run, ops):
         """canonical state of the real router; handler / hook identities are named by the op
@@ -231,6 +242,7 @@ class C11(Check):
             elif exp is not None and (rt.pattern != exp or rt is not r.routes.get(exp)):
                 bad.append(('name-wrong-route', f'router[{name!r}] is {rt.pattern!r} (stale object: '
                                                 f'{rt is not r.routes.get(exp)}), expected {exp!r}'))
+        bad += self._check_listing(run, spec, paths)
         try:
             fresh = spec.rebuild()
         except core.Hang:
@@ -301,6 +313,95 @@ class C11(Check):
                                                      f'{sb[3]!r}, expected {exp!r}'))
         return bad
 
+    def _check_listing(self, run, spec, paths):
+        """enumeration and key forms against the dict spec (nothing of the model is used): the
+        enumerated patterns are the survivors, each exactly once, with the survivor's own Route
+        object; `startswith` selects by pattern prefix; `yield_hooks` adds exactly the hook-only
+        survivors; every key form returns the Route object `resolve` dispatches on; malformed keys
+        are refused with TypeError as the docstring of `__getitem__` says"""
+        from ombott.router.radirouter import RouteKey
+        from ombott.router.radidict import DATA, HOOKS
+        bad = []
+        r = run.router
+        rd = r.radidict
+
+        def listed(**kw):
+            return [(run.observe_path(p), p) for p in core.with_timeout(lambda: list(rd._routes_iter(**kw)))]
+        full = listed()
+        pats = [o[0] for o, _ in full]
+        if sorted(pats) != sorted(spec.routes):
+            bad.append(('listing', f'_routes_iter() lists {pats!r}, survivors {sorted(spec.routes)!r}'))
+        for (pat, flt, keys, data, hooks), _ in full:
+            rt = r.routes.get(pat)
+            if data is None or data is not rt:
+                bad.append(('listing-object', f'_routes_iter() yields {pat!r} with data '
+                                              f'{getattr(data, "rule", data)!r}, the routes index holds '
+                                              f'{getattr(rt, "rule", rt)!r}'))
+            elif [f for f in flt] != list(rt.filters) or keys != list(rt.params):
+                bad.append(('listing-params', f'_routes_iter() yields {pat!r} with params {keys!r} / filters that '
+                                              f'differ from the route\'s {rt.params!r}'))
+        both = listed(yield_hooks=True)
+        hook_only = [o[0] for o, _ in both if o[3] is None]
+        with_data = [o[0] for o, _ in both if o[3] is not None]
+        if with_data != pats:
+            bad.append(('listing-yield-hooks', f'routes listed with yield_hooks {with_data!r}, without {pats!r}'))
+        exp_hooks = sorted(q for q in spec.hooks if q not in spec.routes)
+        got_hooks = sorted(q for q in hook_only if q not in spec.tainted)
+        if got_hooks != exp_hooks:
+            bad.append(('listing-hooks', f'hook-only nodes listed {got_hooks!r}, surviving hook-only patterns {exp_hooks!r}'))
+        seen = set()
+        for pat in pats[:4] + ['a', 'zz']:
+            for cut in sorted({0, len(pat) // 2, len(pat)}):
+                sw = pat[:cut]
+                if not sw or sw in seen:
+                    continue
+                seen.add(sw)
+                sub = [o[0] for o, _ in listed(startswith=sw)]
+                exp = [q for q in pats if q.startswith(sw)]
+                if sub != exp:
+                    bad.append(('listing-startswith', f'_routes_iter(startswith={sw!r}) lists {sub!r}, expected {exp!r}'))
+        # key forms: the Route object resolve() dispatches on
+        for path in paths:
+            rt = core.with_timeout(lambda: r.resolve(path))
+            if rt is None:
+                continue
+            if rt is not r.routes.get(rt.pattern):
+                bad.append(('resolve-object', f'resolve({path!r}) returns a route that is not routes[{rt.pattern!r}]'))
+                continue
+            for what, mk in (('{rule}', lambda: {rt.rule}), ("{'rule': rule}", lambda: {'rule': rt.rule}),
+                             ('RouteKey(rule)', lambda: RouteKey(rt.rule)),
+                             ("{'pattern': pattern}", lambda: {'pattern': rt.pattern}),
+                             ('RouteKey(pattern=pattern)', lambda: RouteKey(pattern=rt.pattern))):
+                try:
+                    got = r[mk()]
+                except Exception as e:
+                    got = type(e).__name__
+                if got is not rt:
+                    bad.append(('getitem-object', f'router[{what}] for the route resolve({path!r}) dispatches on '
+                                                  f'({rt.rule!r}) gives {getattr(got, "rule", got)!r}'))
+        for name, pat in spec.names.items():
+            try:
+                got = r[{'pattern': pat}]
+            except Exception as e:
+                got = type(e).__name__
+            if r[name] is not got:
+                bad.append(('getitem-name-vs-pattern', f'router[{name!r}] and router[{{"pattern": {pat!r}}}] differ'))
+        some = sorted(spec.routes)[:2] + ['zz', 'zy']
+        for what, mk in (('a two-item set', lambda: {'/' + some[0], '/' + some[1]}),
+                         ('a two-item dict', lambda: {'rule': '/' + some[0], 'pattern': some[0]}),
+                         ('RouteKey(rule, pattern=…)', lambda: RouteKey('/' + some[0], pattern=some[0])),
+                         ('a tuple', lambda: ('/' + some[0],)), ('a list', lambda: ['/' + some[0]]),
+                         ('a frozenset', lambda: frozenset(['/' + some[0]]))):
+            try:
+                got = r[mk()]
+                bad.append(('getitem-malformed-accepted', f'router[{what}] is answered ({getattr(got, "rule", got)!r}) '
+                                                          f'instead of raising TypeError'))
+            except TypeError:
+                pass
+            except Exception as e:
+                bad.append(('getitem-malformed-error', f'router[{what}] raises {type(e).__name__}, not TypeError'))
+        return bad
+
     def oracle(self, ops, every=True):
         """plays the edits on the real code next to the dict spec; after every edit (or at the
         probe ops) compares with the rebuilt router.  Returns [(key, what)]"""
@@ -346,6 +447,16 @@ class C11(Check):
                     spec.add_hook(op[1], op[2], idx, out)
                 elif k == 'XH':
                     spec.remove_hook(op[1], out)
+                elif k == 'WX':
+                    if op[1] is not None:
+                        spec.remove_rule(op[1], out)
+                    elif op[2] is not None:
+                        pred = spec.remove_name(op[2], out)
+                        if pred != out:
+                            bad.append(('remove-name-outcome', f'{op!r} answered {out}, survivors say {pred}'))
+                            return bad
+                    elif op[3] is not None:
+                        spec.remove_pattern(op[3], out)
                 if every:
                     bad += self._check_point(run, spec, paths, rules, None)
                     if bad:
